@@ -64,8 +64,10 @@ def junction(seq):
     return labels, t_real, t_zero
 
 
-def counted(seq, scale=1.0):
+def counted(seq, scale=1.0, ulps=None):
     loads = [x * scale for x in seq]
+    for i, k in (ulps or []):
+        loads[i] = loads[i] * (1.0 + k * 2.0 ** -52)
     law, binned = _hcm.binned_law("EN", max_load=max(abs(x) for x in loads), bins=100)
     det, rec = _hcm.run_two_pass(loads, binned)
     df = rec.collective
@@ -81,15 +83,33 @@ def residual_F01_class(seq):
     return t_real and not t_zero
 
 
-def check_second_pass(seq, scale, ctx):
+def _nominal(rows, seq, scale):
+    """Map recorded loads that differ from a nominal level by rounding only (<= 1e-12 relative) back to the level."""
+    levels = sorted(set(x * scale for x in seq) | set(-x * scale for x in seq) | {0.0})   # half loops are symmetric about zero
+    top = max(abs(x) for x in levels)
+
+    def snap(v):
+        t = min(levels, key=lambda u: abs(u - v))
+        if abs(t - v) > 1e-12 * top:
+            raise Violation("recorded load %r is none of the load levels %r of the sequence" % (v, levels), bucket="foreign_level")
+        return t
+    return [(snap(lo), snap(hi), closed, run) for lo, hi, closed, run in rows]
+
+
+def check_second_pass(seq, scale, ctx, ulps=None):
     labels, t_real, t_zero = junction(seq)
     ctx.label(*labels)
+    if ulps:
+        ctx.label("extreme_level_off_by_ulps")
     want = Counter((lo * scale, hi * scale) for lo, hi in ref.periodic_cycles(seq))
     plain = labels <= {"last_is_periodic_reversal", "last_turns_towards_zero", "last_first_opposite_sign",
                        "starts_at_max", "ends_at_max"}
     if sum(want.values()) >= 2 or not plain:
         ctx.nontrivial()
-    rows = counted(seq, scale)
+    rows = counted(seq, scale, ulps)
+    if ulps:
+        # samples of the extreme level that differ by a few ulps (0.1*3*1000 vs 300.0) are the same load level
+        rows = _nominal(rows, seq, scale)
     got = Counter((lo, hi) for lo, hi, closed, run in rows if run == 2)
     if got != want:
         if residual_F01_class(seq) and ctx.known("F01b"):
@@ -140,13 +160,31 @@ def _sequences(draw, tier):
     elif op == "start_at_max":
         seq = [(max(abs(x) for x in seq) + draw(st.integers(0, 2))) * draw(st.sampled_from([-1.0, 1.0]))] + seq
     scale = draw(st.sampled_from([1.0, 12.5, 100.0]))
-    return {"seq": seq, "scale": scale}
+    case = {"seq": seq, "scale": scale}
+    if draw(st.integers(0, 5)) == 0:
+        # the extreme load level reached several times, with both signs, the samples differing by rounding only
+        m = max(abs(x) for x in seq)
+        extra = draw(st.lists(st.tuples(st.integers(0, len(seq)), st.sampled_from([-1.0, 1.0])), min_size=1, max_size=3))
+        for pos, sign in extra:
+            seq.insert(min(pos, len(seq)), sign * m)
+        where = [i for i, x in enumerate(seq) if abs(x) == m]
+        ks = {}
+        for i in where:
+            # equal neighbours stay equal (a plateau must not become a pair of tiny reversals)
+            ks[i] = ks[i - 1] if i - 1 in ks and seq[i - 1] == seq[i] else draw(st.sampled_from([0, 1, 1, 2, 3]))
+        if seq[0] == seq[-1] and 0 in ks:
+            j = len(seq) - 1
+            while j in ks and seq[j] == seq[0]:
+                ks[j] = ks[0]
+                j -= 1
+        case["ulps"] = [[i, ks[i]] for i in where]
+    return case
 
 
 @subcheck("C04", "second_pass_random", strategy=_sequences, quick=2500, thorough=80000,
           doc="run-2 multiset of (loads_min, loads_max) == periodic rainflow reference; all closed; half loops only in run 1 and symmetric")
 def second_pass_random(case, ctx):
-    check_second_pass(case["seq"], case["scale"], ctx)
+    check_second_pass(case["seq"], case["scale"], ctx, case.get("ulps"))
 
 
 def _enum(tier):
